@@ -567,6 +567,14 @@ func rdValueWF(r *reader) bool {
 }
 
 // ---------------------------------------------------------------------------
+// Text tokenizer: ghost view of its input.
+
+func tkStream(t *tokenizer) bool      { return t.in != nil && vcStreamWF(vcStreamOf(t.in)) }
+func tkS(t *tokenizer) *vcStream      { return vcStreamOf(t.in) }
+func tkAvail(t *tokenizer) int        { return len(vcStreamOf(t.in).data) - vcStreamOf(t.in).cur }
+func tkByte(t *tokenizer, i int) byte { return vcStreamOf(t.in).data[vcStreamOf(t.in).cur+i] }
+
+// ---------------------------------------------------------------------------
 // Symbol tables (Ion spec, "Symbols": system symbols 1-9, then each import's max_id slots
 // in declaration order, then the local symbols).
 
